@@ -89,6 +89,23 @@ def run_units(units, seed, twin=False):
     return results
 
 
+def contract_labels_of(fnp):
+    import glob
+    from assemble import parse_vc
+    labs = []
+    for cf in sorted(glob.glob(os.path.join(VERIF, "contracts", "*.vc"))):
+        try:
+            cs = parse_vc(cf)
+        except Exception:
+            continue
+        c = cs.get(fnp)
+        if c:
+            for t, l in c.spec:
+                if l and l not in labs:
+                    labs.append(l)
+    return labs
+
+
 def replay_search(prop, failure, tier):
     """Run the witness family of the failed label on the real crate. -> (found: bool, record)"""
     drv = os.path.join(VERIF, "replay", "run_replay.py")
@@ -178,7 +195,8 @@ def check_property(prop, tier, seed):
             seen.add(key)
             f = dict(f)
             f["unit"] = u
-            (deciding if label_matches(f["label"], pats) else foreign).append(f)
+            is_dec = label_matches(f["label"], pats) or (f.get("implicit") and any(label_matches(l, pats) for l in f.get("fn_labels", [])))
+            (deciding if is_dec else foreign).append(f)
     # known findings
     kf_lines, new = [], []
     for f in deciding:
@@ -187,6 +205,16 @@ def check_property(prop, tier, seed):
             kf_lines.append((kfs[0], f))
         else:
             new.append(f)
+    # waived clauses (dropped by the assembler): print their finding once per run
+    waived_seen = set()
+    for u, r in results.items():
+        if isinstance(r, Undecided):
+            continue
+        for fnp, lab in r.get("waived", []):
+            for k in known.get("findings", []):
+                if k.get("property") == prop and k.get("fn") == fnp and k.get("label") == lab and (fnp, lab) not in waived_seen:
+                    waived_seen.add((fnp, lab))
+                    kf_lines.append((k, {"label": lab, "fn": fnp, "site": fnp}))
     # vacuity twins + second seed (thorough)
     vac_notes = []
     if tier == "thorough" and not undecided:
@@ -266,7 +294,35 @@ def check_property(prop, tier, seed):
     # ---- verdict
     rc = 0
     lines = []
-    if undecided and not new:
+    # a function outside the verifier's reach (dialect, lost anchor): its contract cannot be discharged.
+    # Bounded stand-in: run the witness families of that function's labelled clauses on the REAL code; a
+    # concrete failing input is a violation (it is a counterexample on the real crate), none found = undecided.
+    fallback_notes = []
+    for u, e in undecided:
+        fnp = getattr(e, "fn", None)
+        if not fnp or e.reason not in ("unsupported", "lost-anchor"):
+            continue
+        labs = contract_labels_of(fnp)
+        labs = [l for l in labs if label_matches(l, pats)]
+        tried = set()
+        for lab in labs:
+            f = {"label": lab, "fn": fnp, "message": f"function outside the verifier's reach ({e.reason}); bounded witness search on the real code", "site": fnp, "text": e.detail[:200], "unit": u}
+            found, rec = replay_search(prop, f, tier)
+            fams = tuple(rec.get("families", []))
+            if fams in tried and not found:
+                continue
+            tried.add(fams)
+            fallback_notes.append({"label": lab, "fn": fnp, "families": list(fams), "tried": rec.get("tried"), "failing": rec.get("failing_count", 0)})
+            if found:
+                stub = {"unit": u, "cmd": "witness families only (function not ingestible): " + e.detail[:200]}
+                path = write_replay(prop, f, stub, True, rec)
+                lines.append(f"VIOLATION property={prop} replay={os.path.relpath(path, VERIF)}")
+                lines.append(f"  obligation {lab} of {fnp}: not dischargeable ({e.reason}); BOUNDED witness search found a failing input on the real code: {rec['failing_inputs'][0]['id']}")
+                rc = 1
+                evidence["violations"] += 1
+                break
+    evidence["coverage"]["bounded_fallback_for_uningestible_functions"] = fallback_notes
+    if undecided and not new and rc == 0:
         for u, e in undecided:
             lines.append(f"UNDECIDED property={prop} reason={e.reason} unit={u} {e.detail[:600]}")
         rc = 2
